@@ -140,6 +140,52 @@ ASSUMPTIONS += [
     "R13.21: CPython's object_new/object_init (typeobject.c) accept excess "
     "arguments iff the other slot is overridden anywhere in the type's MRO",
 ]
+# rules/c13_defaults.py (R13.22), rules/c13_splat_keywords.py (R13.24)
+EXPLANATION += (
+    "  R13.22 (rules/c13_defaults.py) assigning `f.__defaults__ = t` replaces "
+    "the positional defaults in both sibling setters: "
+    "SignedFunction.set_function_defaults (resolved along the local MRO, "
+    "self-helpers inlined) is interpreted path by path over the components "
+    "{old-pos, old-kw, new} of the mapping it leaves in signature.defaults "
+    "(re-binding drops what was there; `.update`, `[k] = v`, `|=` - also "
+    "through aliases of the mapping or of the signature - keep it; `{**a, "
+    "**b}`, `a | b`, `dict(a, **b)`, copies join; a comprehension or delete "
+    "loop filtered by membership in the signature's param_names / "
+    "kwonly_params selects; `.clear()` empties): on every normal exit `new` "
+    "is in and `old-pos` is out (a positional parameter the new tuple does "
+    "not cover becomes required, as in CPython); PyTDSignature.set_defaults "
+    "passes every rebuilt pytd.Parameter an `optional=` decided by the "
+    "remaining new defaults alone (True under them, False otherwise, never "
+    "read back from the old parameter); and attribute.py hands a store to "
+    "`__defaults__` of a function to set_function_defaults(node, value).  "
+    "Anything else done to the mapping (hand-over to code that is not "
+    "followed, selective pop/del outside the understood loop) is an analysis "
+    "error.  Not decided here: that the new entries are keyed by the LAST "
+    "len(t) positional names, and that keyword-only defaults survive (R13.23, "
+    "parked in rules/pending_c13_kwdefaults.py because today's tree violates "
+    "it).  R13.24 (rules/c13_splat_keywords.py) while Args.simplify "
+    "normalises a call record, every test `name in <keyword map>` made by "
+    "simplify or by a self-helper it calls (the `*xs` expansion in "
+    "_unpack_and_match_args asks which parameters are passed by keyword; "
+    "reads through self.namedargs, a parameter, a copy or a key view, "
+    "lambdas and comprehensions included) sees exactly the keywords of the "
+    "record simplify returns on that path: keyword maps are abstract objects "
+    "with contents over {explicit, unpacked} and tracked aliasing, so an "
+    "in-place merge of the `**` dictionary (update_args_dict - recognised by "
+    "its body -, .update, |=, a store loop) is visible through "
+    "self.namedargs while a merge into a copy is not; the test's content at "
+    "the time of the helper call must equal the returned record's, and the "
+    "unpacked keywords must reach the returned record.  Blind spots: only "
+    "Args.simplify and the self-helpers of Args are followed (two levels); "
+    "what the expansion does with the answer is not decided.")
+ASSUMPTIONS += [
+    "R13.22: Signature.defaults holds the defaults of positional and "
+    "keyword-only parameters in one mapping keyed by name; values built "
+    "without reading that mapping are 'new'",
+    "R13.24: Args.namedargs is never None (attrs converter); calls that mix "
+    "`*` with keywords arrive with the keywords packed in starstarargs "
+    "(CALL_FUNCTION_EX), Args.starstarargs_as_dict() returns that dict or None",
+]
 
 FB = "pytype/abstract/_function_base.py"
 PF = "pytype/abstract/_pytd_function.py"
